@@ -94,20 +94,21 @@ def hash_job(name, bs):
 
 def replay_variant(path):
     """behaviours recorded by the FIPS-build pass carry 'variant=fips' in their '# driver:' line"""
-    return "fips" if "variant=fips" in open(path).read() else "def"
+    text = open(path).read()
+    return "nosafe" if "variant=nosafe" in text else "fips" if "variant=fips" in text else "def"
 
 
-def fips_legacy_pass(chk, unit, rng, props, tier):
+def fips_legacy_pass(chk, unit, rng, props, tier, variant="fips"):
     """the deprecated (un-prefixed) and per-family entry points are not gated and must compute the same in a FIPS_MODE build:
     a slim pass of the unit's behaviours through them on the FIPS variant (the isal_ entry points of non-approved algorithms
     refuse there, which is C13's subject)."""
     k = 1 if tier == "quick" else 6
     if unit == "hash":
-        exe = build.build_driver("hash", HASH_SRCS, variant="fips")
+        exe = build.build_driver("hash", HASH_SRCS, variant=variant)
         jobs = hash_jobs(rng.randrange(1 << 30), 4 * k, fams=["legacy"], rejects=0.1)
         spec, marker = "TraceHash", "HReset"
     elif unit == "aes":
-        exe = build.build_driver("aes", AES_SRCS, variant="fips")
+        exe = build.build_driver("aes", AES_SRCS, variant=variant)
         aj = {}
         aj.update(gen_aes.gcm_oneshot_behaviours(rng, 14 * k, fams=["legacy"]))
         aj.update(gen_aes.gcm_stream_jobs(rng, 2 * k, fams=["legacy"]))
@@ -117,7 +118,7 @@ def fips_legacy_pass(chk, unit, rng, props, tier):
         jobs = merge_jobs(aj)
         spec, marker = "TraceAes", "Mark"
     else:
-        exe = build.build_driver("mh", MH_SRCS, variant="fips", wraps=MH_WRAPS)
+        exe = build.build_driver("mh", MH_SRCS, variant=variant, wraps=MH_WRAPS)
         mj = {}
         for alg in ("sha1", "sha256", "murmur"):
             mj.update(gen_mh.mh_jobs(rng, alg, 3 * k, fams=["legacy", "legacy_base", "avx2"]))
@@ -126,11 +127,11 @@ def fips_legacy_pass(chk, unit, rng, props, tier):
         jobs = merge_jobs(mj, key=lambda n: n, driver="mh")
         spec, marker = "TraceMh", "Mark"
     for j in jobs:
-        j["name"] = "fips-" + j["name"]
-        j["driver"] = j.get("driver", unit) + " variant=fips"
+        j["name"] = variant + "-" + j["name"]
+        j["driver"] = j.get("driver", unit) + " variant=" + variant
     outs = run_jobs(jobs, exe, spec)
     nb, ne = collect(chk, outs, props, marker=marker)
-    chk.cov["fips_build_legacy_pass"] = {"behaviours": nb, "events": ne}
+    chk.cov["%s_build_legacy_pass" % variant] = {"behaviours": nb, "events": ne}
     return nb, ne
 
 
@@ -284,6 +285,7 @@ def aes_check(pid, tier, seed, replay, make_jobs, rule=None, level="model_checki
     nb, ne = collect(chk, outs, props, marker="Mark")
     if pid in ("C02", "C03", "C04", "C07"):
         fips_legacy_pass(chk, "aes", rng, props, tier)
+        fips_legacy_pass(chk, "aes", rng, props, tier, variant="nosafe")     # SAFE_DATA=n assembles different code paths
     _finish_traces(chk, jobs, outs, nb, ne, rule)
     chk.cov["distinct_nontrivial"] = len({" ".join(b[-1].split()[:4] + b[-1].split()[-8:]) + str(len(b)) + b[0] for j in jobs for b in j["behaviours"]})
     chk.assumptions += ["TLC + Java primitive overrides (self-tested at setup: FIPS 197, SP 800-38A/D, IEEE 1619 vectors)",
